@@ -71,13 +71,20 @@ def _A(M, cat):
     return np.array([[float(v) for v in r] for r in rows])
 
 
-def _setup(M, cat, with_base, face_samples=False):
+def _setup(M, cat, with_base, face_samples=False, int_bounds=None):
     A = _A(M, cat)
     m, n = np.asarray(A).shape
-    lb = M.real("lb", (n,), sample=lambda r, s: r.choice([0.0, 0.1, 0.25], size=s))
-    ub = M.real("ub", (n,), sample=lambda r, s: r.uniform(1.0, 3.0, size=s))
-    for j in range(n):
-        M.assume(lb[j] >= 0); M.assume(ub[j] > lb[j])
+    if int_bounds is not None:
+        # bounds typed the way users write them: integer lists (the arrays the code allocates from them must still hold real numbers)
+        # (exact constants in the symbolic / exact-arithmetic runs, where typing is invisible; genuine int64 arrays in the run of the real code)
+        lb = np.array(int_bounds[0][:n], dtype=np.int64); ub = np.array(int_bounds[1][:n], dtype=np.int64)
+        if M.symbolic:
+            lb = symnp.const(lb.astype(float)); ub = symnp.const(ub.astype(float))
+    else:
+        lb = M.real("lb", (n,), sample=lambda r, s: r.choice([0.0, 0.1, 0.25], size=s))
+        ub = M.real("ub", (n,), sample=lambda r, s: r.uniform(1.0, 3.0, size=s))
+        for j in range(n):
+            M.assume(lb[j] >= 0); M.assume(ub[j] > lb[j])
     # x0: any in-bound intensities; the target is their capture (interior, face, edge and vertex targets are all covered)
     # concrete modes sample interior targets only: face / vertex targets hit the rounding defect F10 in float64 (they are covered symbolically,
     # in exact arithmetic, and by the tie layer)
@@ -88,9 +95,9 @@ def _setup(M, cat, with_base, face_samples=False):
     return A, m, n, lb, ub, t, base
 
 
-def extent_case(M, cat, via="helper", attain=True, with_base=False):
+def extent_case(M, cat, via="helper", attain=True, with_base=False, int_bounds=None):
     from dreye.api.convex import _range_of_solutions, range_of_solutions
-    A, m, n, lb, ub, t, base = _setup(M, cat, with_base)
+    A, m, n, lb, ub, t, base = _setup(M, cat, with_base, int_bounds=int_bounds)
     if M.symbolic:
         x0 = [lb[j] + t[j] * (ub[j] - lb[j]) for j in range(n)]
     else:
@@ -257,6 +264,10 @@ def cases(tier, seed):
         add(f"extent {cat}", "extent_case", cat=cat)
         add(f"spaced {cat} n=3", "spaced_case", cat=cat, nsp=3)
     add("extent 2x3-rand1 via range_of_solutions with baseline", "extent_case", cat="2x3-rand1", via="public", with_base=True)
+    add("extent 2x3-rand1 via range_of_solutions, integer-typed bounds [0,0,0]..[3,2,4]", "extent_case", cat="2x3-rand1", via="public", int_bounds=([0, 0, 0, 0, 0], [3, 2, 4, 3, 2]),
+        opts=dict(float_strict=True, n_validate=3))
+    add("extent 2x3-rand2 helper, integer-typed bounds [0,1,0]..[2,5,3]", "extent_case", cat="2x3-rand2", int_bounds=([0, 1, 0, 0, 0], [2, 5, 3, 3, 2]),
+        opts=dict(float_strict=True, n_validate=3))
     add("spaced 2x3-rand1 n=2", "spaced_case", cat="2x3-rand1", nsp=2)
     if big:
         # 3 receptors x 4 sources: all clauses except attainment of the ends (that clause returned unknown for 4 of 225 paths after 60 s each)
